@@ -217,7 +217,27 @@ func c07H2Script(s *verifh.Session, sid uint32) ([]byte, []string) {
 		emit(c07Frame{-1, tHEADERS, 0x4 | endStream, verifh.Pick(r, []uint32{0, sid + 2, 2, sid}), block})
 		tag("headers-odd-stream")
 	default:
-		emit(c07Frame{-1, tHEADERS, 0x4 | endStream, sid, block})
+		fl := byte(0x4) | endStream
+		pl := block
+		if r.Intn(3) == 0 { // PRIORITY fields
+			pl = append(append(c07U32(uint32(r.Intn(3))|uint32(r.Intn(2))<<31), byte(r.Intn(256))), pl...)
+			fl |= 0x20
+			tag("headers-priority")
+		}
+		if r.Intn(3) == 0 { // PADDED, pad length consistent or not (boundaries around the payload length)
+			pad := verifh.Pick(r, []int{0, 1, 5, len(pl), len(pl) + 1, len(pl) - 1, len(pl) - 4, len(pl) - 5, 255})
+			if pad < 0 {
+				pad = 0
+			}
+			if pad > 255 {
+				pad = 255
+			}
+			real := verifh.Pick(r, []int{pad, pad, 0, 0, r.Intn(pad + 1)})
+			pl = append(append([]byte{byte(pad)}, pl...), make([]byte, real)...)
+			fl |= 0x8
+			tag("headers-padded")
+		}
+		emit(c07Frame{-1, tHEADERS, fl, sid, pl})
 	}
 	// body
 	if endStream == 0 {
@@ -421,7 +441,9 @@ func TestVerif_C07_h2hostile(t *testing.T) {
 		path := "/" + strconv.Itoa(i)
 		peer.set(path, c07Script{data: script})
 		ch := make(chan [2]string, 1)
+		start := make(chan struct{})
 		go func() {
+			<-start
 			kind := ""
 			ptxt, panicked := verifh.Safely(func() {
 				r := clients[oi].R()
@@ -462,6 +484,8 @@ func TestVerif_C07_h2hostile(t *testing.T) {
 				}
 			}
 		}
+		s.Begin(id, human)
+		close(start)
 		select {
 		case res := <-ch:
 			s.Count(res[0])
@@ -551,7 +575,7 @@ func TestVerif_C07_h2budget(t *testing.T) {
 		{"endless-1xx", settings, c07Frame{-1, 1, 0x4, 1, c07Hpack([2]string{":status", "103"}, [2]string{"link", "</a>"})}.bytes(), 4 * hl, false},
 		{"endless-continuation", append(append([]byte{}, settings...), c07Frame{-1, 1, 0, 1, c07Hpack([2]string{":status", "200"})}.bytes()...), c07Frame{-1, 9, 0, 1, bigField}.bytes(), 4 * hl, false},
 		{"endless-data-unread", append(append([]byte{}, settings...), okHead...), c07Frame{-1, 0, 0, 1, bytes.Repeat([]byte("d"), 16384)}.bytes(), 16 << 20, false},
-		{"endless-data-beyond-content-length", append(append([]byte{}, settings...), clHead...), c07Frame{-1, 0, 0, 1, bytes.Repeat([]byte("d"), 1000)}.bytes(), 1 << 20, true},
+		{"endless-data-beyond-content-length", append(append([]byte{}, settings...), clHead...), c07Frame{-1, 0, 0, 1, bytes.Repeat([]byte("d"), 1000)}.bytes(), 16 << 20, true},
 		{"endless-ping", settings, c07Frame{-1, 6, 0, 0, []byte("12345678")}.bytes(), -1, false},
 	}
 	for ci, bc := range cases {
